@@ -1,7 +1,12 @@
 import PyxisVerif.Props.C06
+import PyxisVerif.Props.CaseLift
 #print axioms PyxisVerif.C06.accept_implies_prefix
 #print axioms PyxisVerif.C06.mutation_rejected
 #print axioms PyxisVerif.C06.own_pointer
 #print axioms PyxisVerif.C06.inherited
 #print axioms PyxisVerif.C06.pointer_first
 #print axioms PyxisVerif.C06.accessor_shape
+#print axioms PyxisVerif.C06.case_own_pointer
+#print axioms PyxisVerif.C06.case_pointer_first
+#print axioms PyxisVerif.C06.case_inherited
+#print axioms PyxisVerif.C06.case_accept_implies_prefix
